@@ -699,3 +699,316 @@ Proof.
     eapply tcp_split_clean; [| |exact F]; [apply wfb_app; split; assumption|lia].
   - apply tcp_pending_none in Ep. subst s. rewrite tcp_feed_closed in Hf. inversion Hf. constructor.
 Qed.
+
+(* ------------------------------------------------------------------ read buffer, retry loop, event loop *)
+
+Lemma tcp_feed_nil c s : tcp_feed c s [] = (s, []).
+Proof. reflexivity. Qed.
+
+(* one call of coap_read_session = the reader fed with everything that was available (the
+   socket is drained unless the session was closed) *)
+Lemma tcp_read_session_feed c : 0 < tcp_rxbuf c -> forall fuel s avail s' e' rest',
+  tcp_wf c s -> wfb avail -> (length avail < fuel)%nat ->
+  tcp_read_session fuel true c s avail = (s', e', rest') ->
+  tcp_feed c s avail = (s', e') /\ (rest' = [] \/ s' = TClosed).
+Proof.
+  intros HR. induction fuel as [|f IH]; intros s avail s' e' rest' W Wa HF H; [lia|].
+  cbn [tcp_read_session] in H.
+  set (chunk := take (tcp_rxbuf c) avail) in *. set (rest := drop (tcp_rxbuf c) avail) in *.
+  assert (Hsplit : avail = chunk ++ rest) by (symmetry; apply take_drop).
+  assert (Wc : wfb chunk) by (apply wfb_take; assumption).
+  assert (Wr : wfb rest) by (apply wfb_drop; assumption).
+  fold (tcp_feed c s chunk) in H.
+  destruct (tcp_feed c s chunk) as [s1 e1] eqn:H1.
+  pose proof (tcp_feed_wf c s chunk s1 e1 W Wc H1) as W1.
+  assert (Happ : tcp_feed c s avail = let '(s2, e2) := tcp_feed c s1 rest in (s2, e1 ++ e2)).
+  { rewrite Hsplit at 1. rewrite tcp_feed_app by assumption. rewrite H1. reflexivity. }
+  assert (Hclosed : s1 = TClosed -> tcp_feed c s avail = (TClosed, e1)).
+  { intros ->. rewrite Happ, tcp_feed_closed, app_nil_r. reflexivity. }
+  assert (Hshort : (len chunk =? tcp_rxbuf c) = false -> rest = []).
+  { intros E. subst chunk rest. pose proof (len_nonneg avail).
+    rewrite tcp_len_take_min in E by lia. apply tcp_drop_all. lia. }
+  assert (Hrec : (len chunk =? tcp_rxbuf c) = true -> (length rest < f)%nat).
+  { intros E. subst chunk rest. pose proof (len_nonneg avail).
+    rewrite tcp_len_take_min in E by lia. unfold drop. rewrite skipn_length.
+    unfold len in *. lia. }
+  destruct s1 as [|h|acc total|].
+  4:{ inversion H; subst s' e' rest'. split; [apply Hclosed; reflexivity|right; reflexivity]. }
+  all: destruct (len chunk =? tcp_rxbuf c) eqn:E;
+     [ destruct (tcp_read_session f true c _ rest) as [[s2 e2] r2] eqn:H2;
+       inversion H; subst s' e' rest'; clear H;
+       destruct (IH _ rest s2 e2 r2 W1 Wr (Hrec eq_refl) H2) as (F2 & Hr2);
+       split; [rewrite Happ, F2; reflexivity|exact Hr2]
+     | inversion H; subst s' e' rest'; clear H;
+       split; [rewrite Happ, (Hshort eq_refl), tcp_feed_nil, app_nil_r; reflexivity
+              |left; apply Hshort; reflexivity] ].
+Qed.
+
+(* the level-triggered event loop delivers exactly what one big read would *)
+Theorem tcp_pump_feed c : 0 < tcp_rxbuf c -> forall fuel s avail,
+  tcp_wf c s -> wfb avail -> (length avail < fuel)%nat ->
+  tcp_pump fuel true c s avail = tcp_feed c s avail.
+Proof.
+  intros HR fuel s avail W Wa HF.
+  destruct avail as [|b r]; [destruct fuel; reflexivity|].
+  destruct fuel as [|f]; [lia|].
+  destruct s as [|h|acc total|].
+  4:{ cbn [tcp_pump]. rewrite tcp_feed_closed. reflexivity. }
+  all: cbn [tcp_pump];
+     destruct (tcp_read_session (S (length (b :: r))) true c _ (b :: r)) as [[s1 e1] rest] eqn:H1;
+     destruct (tcp_read_session_feed c HR _ _ (b :: r) s1 e1 rest W Wa (Nat.lt_succ_diag_r _) H1)
+       as (F1 & Hrest);
+     rewrite F1;
+     destruct Hrest as [-> | ->];
+     [ destruct f; cbn [tcp_pump]; rewrite app_nil_r; reflexivity
+     | idtac ].
+  all: destruct rest; [destruct f|destruct f]; cbn [tcp_pump]; rewrite ?app_nil_r; try reflexivity.
+
+Qed.
+
+Lemma tcp_concat_wfb chunks : Forall wfb chunks -> wfb (concat chunks).
+Proof. induction 1; cbn [concat]; [constructor|apply wfb_app; split; assumption]. Qed.
+
+(* C05_tcp_arrivals: however the kernel delivers the stream, the result is that of one read *)
+Theorem tcp_arrivals_feed c : 0 < tcp_rxbuf c -> forall arr s,
+  tcp_wf c s -> Forall wfb arr ->
+  tcp_arrivals true c s arr = tcp_feed c s (concat arr).
+Proof.
+  intros HR. induction arr as [|a tl IH]; intros s W Wc.
+  - reflexivity.
+  - inversion Wc as [|? ? Wa Wtl]; subst.
+    cbn [tcp_arrivals concat]. rewrite tcp_pump_feed by (try assumption; lia).
+    rewrite tcp_feed_app; [|assumption|assumption|apply tcp_concat_wfb; assumption].
+    destruct (tcp_feed c s a) as [s1 e1] eqn:H1.
+    rewrite IH; [reflexivity| |assumption].
+    apply (tcp_feed_wf c s a s1 e1); assumption.
+Qed.
+
+Corollary tcp_arrivals_independent c s arr1 arr2 :
+  0 < tcp_rxbuf c -> tcp_wf c s -> Forall wfb arr1 -> Forall wfb arr2 ->
+  concat arr1 = concat arr2 -> tcp_arrivals true c s arr1 = tcp_arrivals true c s arr2.
+Proof.
+  intros HR W W1 W2 H. rewrite !tcp_arrivals_feed by assumption. rewrite H. reflexivity.
+Qed.
+
+(* ------------------------------------------------------------------ streams of serialised messages *)
+From LibcoapV Require Import Wire.OptCodecProofs Wire.PduProofs.
+
+Lemma tcp_opts_enc_wfb l : forall prev,
+  0 <= prev -> ascending prev l -> Forall opt_wf l -> wfb (opts_enc prev l).
+Proof.
+  induction l as [|[n v] tl IH]; intros prev Hp Ha Hw; cbn [opts_enc]; [constructor|].
+  cbn [ascending fst] in Ha. destruct Ha as [Hpn Ha].
+  inversion Hw as [|? ? Ho Hw']; subst. destruct Ho as (Hn & Hv & Hvb). cbn [fst snd] in *.
+  apply wfb_app. split; [|apply IH; [lia|assumption|assumption]].
+  unfold opt_enc. apply wfb_app. split; [|assumption].
+  pose proof (len_nonneg v). apply opt_hdr_wfb; lia.
+Qed.
+
+Lemma tcp_token_area_wfb t : len t <= 65804 -> wfb t -> wfb (token_area t).
+Proof.
+  intros Hl W. pose proof (len_nonneg t). unfold token_area. repeat case_if; try assumption.
+  - apply wfb_cons. split; [unfold is_byte; lia|assumption].
+  - apply wfb_app. split; [|assumption]. unfold be16. repeat constructor; unfold is_byte; lia.
+Qed.
+
+Lemma tcp_content_area_wfb m : msg_wf m -> wfb (content_area m).
+Proof.
+  intros [_ _ _ _ [Hof Hasc] _ Hpl _]. unfold content_area. apply wfb_app. split.
+  - apply tcp_opts_enc_wfb; [lia|assumption|assumption].
+  - unfold payload_area. destruct (m_payload m); [constructor|].
+    apply wfb_cons. split; [unfold is_byte, PAYLOAD_START; lia|assumption].
+Qed.
+
+Definition tcp_msg_size (m : msg) : Z := len (token_area (m_token m)) + len (content_area m).
+
+(* the message fits the 32-bit length form and both caps *)
+Definition tcp_msg_fits (c : tcp_cfg) (m : msg) : Prop :=
+  len (content_area m) < 65805 + 4294967296 /\ tcp_oversize c (tcp_msg_size m) = false.
+
+Lemma tcp_header_wfb m :
+  msg_wf m -> len (content_area m) < 65805 + 4294967296 -> wfb (header TCP m).
+Proof.
+  intros W Hfit. pose proof (tkl_nib_range (m_token m)) as Ht.
+  pose proof (len_nonneg (content_area m)) as Hl. destruct W as [_ Hco _ _ _ _ _ _].
+  unfold header. repeat case_if; unfold be16, be32; repeat (apply wfb_cons; split);
+    try constructor; unfold is_byte; try lia.
+Qed.
+
+Lemma tcp_serialize_wfb m :
+  msg_wf m -> len (content_area m) < 65805 + 4294967296 -> wfb (serialize TCP m).
+Proof.
+  intros W Hfit. unfold serialize. apply wfb_app. split; [apply tcp_header_wfb; assumption|].
+  apply wfb_app. split; [|apply tcp_content_area_wfb; assumption].
+  destruct W as [_ _ _ [Htl Htb] _ _ _ _]. apply tcp_token_area_wfb; assumption.
+Qed.
+
+Lemma tcp_tok_size_token_area t more :
+  len t <= 65804 ->
+  tcp_tok_size (tkl_nib t) (token_area t ++ more) = Some (len (token_area t)) /\
+  (if tkl_nib t =? 13 then 1 else if tkl_nib t =? 14 then 2 else 0) <= len (token_area t).
+Proof.
+  intros Hl. pose proof (len_nonneg t) as H0. unfold tcp_tok_size, tkl_nib, token_area.
+  destruct (len t <? 13) eqn:E1.
+  - rewrite E1. replace (len t =? 13) with false by lia. replace (len t =? 14) with false by lia.
+    split; [reflexivity|lia].
+  - destruct (len t <? 269) eqn:E2.
+    + cbn [Z.ltb Z.eqb Z.compare Pos.compare Pos.compare_cont Pos.eqb app].
+      rewrite len_cons. split; [f_equal; lia|lia].
+    + cbn [Z.ltb Z.eqb Z.compare Pos.compare Pos.compare_cont Pos.eqb app be16].
+      rewrite !len_cons. split; [f_equal; lia|lia].
+Qed.
+
+Lemma tcp_serialize_shape m :
+  msg_wf m -> len (content_area m) < 65805 + 4294967296 ->
+  exists b0 r, serialize TCP m = b0 :: r /\
+    tcp_hdr_len b0 <= len (serialize TCP m) /\
+    tcp_parse_size (serialize TCP m) = Some (tcp_msg_size m) /\
+    tcp_hdr_size b0 + tcp_msg_size m = len (serialize TCP m).
+Proof.
+  intros W Hfit. pose proof W as W0. destruct W0 as [_ Hco _ [Htl Htb] _ _ _ _].
+  pose proof (tkl_nib_range (m_token m)) as Ht.
+  pose proof (len_nonneg (content_area m)) as Hl.
+  set (t := m_token m) in *. set (ca := content_area m) in *.
+  destruct (tcp_tok_size_token_area t ca Htl) as (Htok & Hte).
+  assert (Hmod : forall k, 0 <= k < 16 -> (16 * k + tkl_nib t) mod 16 = tkl_nib t /\
+                                         (16 * k + tkl_nib t) / 16 = k) by (intros; lia).
+  unfold tcp_msg_size, serialize, header, tcp_hdr_len, tcp_hdr_size, header_size, tcp_tok_ext.
+  fold t ca.
+  destruct (len ca <=? 12) eqn:E1; [|destruct (len ca <=? 268) eqn:E2; [|destruct (len ca <=? 65804) eqn:E3]].
+  - destruct (Hmod (len ca) ltac:(lia)) as (Hm & Hd).
+    eexists; eexists; split; [reflexivity|]. rewrite Hm, Hd.
+    replace (len ca <? 13) with true by lia.
+    cbn [app]. rewrite !len_cons, len_app.
+    split; [lia|]. split; [|lia].
+    unfold tcp_parse_size. rewrite Hm, Hd. replace (len ca <? 13) with true by lia.
+    unfold tcp_add_tok. rewrite Htok. f_equal. lia.
+  - replace (208 + tkl_nib t) with (16 * 13 + tkl_nib t) by lia.
+    destruct (Hmod 13 ltac:(lia)) as (Hm & Hd).
+    eexists; eexists; split; [reflexivity|]. rewrite Hm, Hd.
+    cbn [Z.ltb Z.eqb Z.compare Pos.compare Pos.compare_cont Pos.eqb app].
+    rewrite !len_cons, len_app.
+    split; [lia|]. split; [|lia].
+    unfold tcp_parse_size. rewrite Hm, Hd.
+    cbn [Z.ltb Z.eqb Z.compare Pos.compare Pos.compare_cont Pos.eqb].
+    unfold tcp_add_tok. rewrite Htok. f_equal. lia.
+  - replace (224 + tkl_nib t) with (16 * 14 + tkl_nib t) by lia.
+    destruct (Hmod 14 ltac:(lia)) as (Hm & Hd).
+    eexists; eexists; split; [reflexivity|]. rewrite Hm, Hd.
+    cbn [Z.ltb Z.eqb Z.compare Pos.compare Pos.compare_cont Pos.eqb app be16].
+    rewrite !len_cons, len_app.
+    split; [lia|]. split; [|lia].
+    unfold tcp_parse_size. rewrite Hm, Hd.
+    cbn [Z.ltb Z.eqb Z.compare Pos.compare Pos.compare_cont Pos.eqb].
+    unfold tcp_add_tok. rewrite Htok. f_equal. lia.
+  - replace (240 + tkl_nib t) with (16 * 15 + tkl_nib t) by lia.
+    destruct (Hmod 15 ltac:(lia)) as (Hm & Hd).
+    eexists; eexists; split; [reflexivity|]. rewrite Hm, Hd.
+    cbn [Z.ltb Z.eqb Z.compare Pos.compare Pos.compare_cont Pos.eqb app be32].
+    rewrite !len_cons, len_app.
+    split; [lia|]. split; [|lia].
+    unfold tcp_parse_size. rewrite Hm, Hd.
+    cbn [Z.ltb Z.eqb Z.compare Pos.compare Pos.compare_cont Pos.eqb].
+    unfold tcp_add_tok. rewrite Htok. f_equal. lia.
+Qed.
+
+(* one serialised message in front of a stream is split off as exactly that message *)
+Lemma tcp_frames_serialize c m rest :
+  msg_wf m -> tcp_msg_fits c m -> wfb rest ->
+  tcp_frames c (serialize TCP m ++ rest) =
+  let '(e, r) := tcp_frames c rest in (TMsg (serialize TCP m) :: e, r).
+Proof.
+  intros W (Hfit & Hover) Wr.
+  destruct (tcp_serialize_shape m W Hfit) as (b0 & r & Hs & Hhl & Hsz & Htot).
+  pose proof (tcp_serialize_wfb m W Hfit) as Wf.
+  set (f := serialize TCP m) in *. pose proof (len_nonneg rest) as Hrest.
+  rewrite Hs. change ((b0 :: r) ++ rest) with (b0 :: (r ++ rest)).
+  rewrite tcp_frames_cons_unfold, tcp_split_S. cbv zeta.
+  change (b0 :: r ++ rest) with ((b0 :: r) ++ rest). rewrite <- Hs. rewrite len_app.
+  replace (len f + len rest <? tcp_hdr_len b0) with false by lia.
+  rewrite tcp_take_app_le by lia.
+  rewrite (tcp_parse_size_take f b0 r Hs Hhl), Hsz, Hover, Htot.
+  replace (len f + len rest <? len f) with false by lia.
+  rewrite take_app_exact, drop_app_exact.
+  rewrite (tcp_frames_fuel c (length (r ++ rest)) rest Wr) by (rewrite app_length; lia).
+  reflexivity.
+Qed.
+
+(* C05_tcp_frames *)
+Theorem tcp_frames_stream c : forall ms,
+  Forall (fun m => msg_wf m /\ tcp_msg_fits c m) ms ->
+  tcp_frames c (concat (map (serialize TCP) ms)) = (map (fun m => TMsg (serialize TCP m)) ms, Some []).
+Proof.
+  induction ms as [|m tl IH]; intros H; [reflexivity|].
+  inversion H as [|? ? [W F] Htl]; subst. cbn [map concat].
+  rewrite tcp_frames_serialize; [|assumption|assumption|].
+  - rewrite IH by assumption. reflexivity.
+  - apply tcp_concat_wfb. clear -Htl. induction Htl as [|x l [Wx [Fx _]] _ IHl]; cbn [map]; constructor;
+      [apply tcp_serialize_wfb; assumption|assumption].
+Qed.
+
+Theorem tcp_feed_stream c ms :
+  Forall (fun m => msg_wf m /\ tcp_msg_fits c m) ms ->
+  tcp_feed c TIdle (concat (map (serialize TCP) ms)) =
+  (TIdle, map (fun m => TMsg (serialize TCP m)) ms).
+Proof.
+  intros H.
+  assert (Wc : wfb (concat (map (serialize TCP) ms))).
+  { apply tcp_concat_wfb. clear -H. induction H as [|x l [Wx [Fx _]] _ IHl]; cbn [map]; constructor;
+      [apply tcp_serialize_wfb; assumption|assumption]. }
+  destruct (tcp_feed c TIdle (concat (map (serialize TCP) ms))) as [s' evs] eqn:Hf.
+  destruct (tcp_feed_frames c TIdle _ [] s' evs I Wc eq_refl Hf) as (F & W').
+  cbn [app] in F. rewrite tcp_frames_stream in F by assumption. inversion F; subst.
+  f_equal. apply (tcp_pending_inj c); [assumption|exact I|symmetry; assumption].
+Qed.
+
+(* every one of these frames is accepted by the PDU parser and decodes to the message *)
+Theorem tcp_observe_stream ms :
+  Forall msg_wf ms ->
+  tcp_observe (map (fun m => TMsg (serialize TCP m)) ms) = map (fun m => TDeliver (norm_fields TCP m)) ms.
+Proof.
+  induction 1 as [|m tl W _ IH]; [reflexivity|].
+  cbn [map tcp_observe tcp_observe_ev]. rewrite parse_serialize by assumption.
+  f_equal. exact IH.
+Qed.
+
+(* ------------------------------------------------------------------ oversize *)
+
+(* C05_tcp_oversize: as soon as the header of an oversized frame is complete the session is
+   closed; nothing of the frame is kept and later bytes are ignored *)
+Theorem tcp_oversize_closes c h b0 r size rest :
+  h = b0 :: r -> wfb h -> wfb rest -> len h = tcp_hdr_len b0 ->
+  tcp_parse_size h = Some size -> tcp_oversize c size = true ->
+  tcp_feed c TIdle (h ++ rest) = (TClosed, [TClose]).
+Proof.
+  intros Hh Wh Wr Hlen Hs Ho.
+  assert (Wc : wfb (h ++ rest)) by (apply wfb_app; split; assumption).
+  destruct (tcp_feed c TIdle (h ++ rest)) as [s' evs] eqn:Hf.
+  destruct (tcp_feed_frames c TIdle _ [] s' evs I Wc eq_refl Hf) as (F & W').
+  cbn [app] in F. pose proof (len_nonneg rest) as Hrest.
+  assert (F' : tcp_frames c (h ++ rest) = ([TClose], None)).
+  { subst h. change ((b0 :: r) ++ rest) with (b0 :: (r ++ rest)).
+    rewrite tcp_frames_cons_unfold, tcp_split_S. cbv zeta.
+    change (b0 :: r ++ rest) with ((b0 :: r) ++ rest). rewrite len_app.
+    replace (len (b0 :: r) + len rest <? tcp_hdr_len b0) with false by lia.
+    rewrite tcp_take_app_le by lia. rewrite tcp_take_all by lia. rewrite Hs, Ho. reflexivity. }
+  rewrite F' in F. inversion F; subst. f_equal. apply tcp_pending_none. congruence.
+Qed.
+
+(* ------------------------------------------------------------------ the line as found *)
+
+(* "partial_read += bytes_read" after "bytes_read -= n": a TCP8 message (3-byte header) read as
+   1 + 1 + rest loses the second byte *)
+Definition tcp_wit_cfg := tcp_cfg_of_mtu tcp_hard_cap_default.
+Definition tcp_wit_msg : bytes := [208; 1; 1; 177; 97; 255; 1; 2; 3; 4; 5; 6; 7; 8; 9; 10; 11].
+Definition tcp_wit_chunks : list bytes := [[208]; [1]; [1; 177; 97; 255; 1; 2; 3; 4; 5; 6; 7; 8; 9; 10; 11]].
+
+Theorem tcp_orig_refuted :
+  exists c chunks, snd (tcp_feed_chunks false c TIdle chunks) <> snd (tcp_feed_orig c TIdle (concat chunks)).
+Proof. exists tcp_wit_cfg, tcp_wit_chunks. vm_compute. discriminate. Qed.
+
+(* non-vacuity: the same chunking of the same message on the repaired reader *)
+Example tcp_fixed_witness :
+  tcp_feed_chunks true tcp_wit_cfg TIdle tcp_wit_chunks = (TIdle, [TMsg tcp_wit_msg]) /\
+  tcp_feed tcp_wit_cfg TIdle tcp_wit_msg = (TIdle, [TMsg tcp_wit_msg]).
+Proof. vm_compute. split; reflexivity. Qed.
